@@ -611,6 +611,67 @@ func (g *Gen) policySpec(cl *Cluster, p *Policy) {
 	}
 }
 
+// flipRoles returns a copy of the policy in which one ipBlock CIDR changes its role inside its rule: a block's cidr
+// becomes an exception of a wider block, or an exception becomes the block itself. nil if the policy has no ipBlock.
+// (An update of this kind makes the same hash:net member wanted with and without nomatch in consecutive syncs.)
+func (g *Gen) flipRoles(p *Policy) *Policy {
+	type loc struct {
+		egress bool
+		r, pe  int
+	}
+	var locs []loc
+	for _, eg := range []bool{false, true} {
+		rules := p.Ingress
+		if eg {
+			rules = p.Egress
+		}
+		for ri, r := range rules {
+			for pi, pe := range r.Peers {
+				if pe.Block != nil {
+					_, bits, ok := parsePrefix(pe.Block.CIDR)
+					if ok && (bits > 8 || len(pe.Block.Except) > 0) {
+						locs = append(locs, loc{eg, ri, pi})
+					}
+				}
+			}
+		}
+	}
+	if len(locs) == 0 {
+		return nil
+	}
+	l := locs[g.C.Choose(len(locs))]
+	cp := *p
+	copyRules := func(rs []PRule) []PRule {
+		out := make([]PRule, len(rs))
+		for i, r := range rs {
+			out[i] = PRule{Peers: append([]Peer{}, r.Peers...), Ports: r.Ports}
+		}
+		return out
+	}
+	cp.Ingress, cp.Egress = copyRules(p.Ingress), copyRules(p.Egress)
+	rules := cp.Ingress
+	if l.egress {
+		rules = cp.Egress
+	}
+	old := rules[l.r].Peers[l.pe].Block
+	base, bits, _ := parsePrefix(old.CIDR)
+	nb := &Block{}
+	if len(old.Except) > 0 && (bits <= 8 || g.C.Prob(1, 2)) {
+		// an exception becomes the block
+		nb.CIDR = old.Except[g.C.Choose(len(old.Except))]
+	} else {
+		// the block becomes an exception of a wider block
+		k := 1 + g.C.Choose(8)
+		if bits-k < 8 {
+			k = bits - 8
+		}
+		nb.CIDR = fmt.Sprintf("%s/%d", u32ToIP(base&maskOf(bits-k)), bits-k)
+		nb.Except = []string{fmt.Sprintf("%s/%d", u32ToIP(base), bits)}
+	}
+	rules[l.r].Peers[l.pe] = Peer{Block: nb}
+	return &cp
+}
+
 func (g *Gen) newPolicy(cl *Cluster) *Policy {
 	p := &Policy{NS: g.nsOf(cl), Name: fmt.Sprintf("np%d", g.polSeq)}
 	g.polSeq++
